@@ -287,10 +287,17 @@ def recheck_wire(root, binp, module, dis, orfs, rundir, is_known=lambda rec: Fal
         m = re.search(r"coq=(\(.*\))", out)
         return (m.group(1) if m else None), ("oracle=FAIL" in out)
 
+    # re-running is for timing flukes, which are rare and isolated: when many cases of a suite fail, the
+    # first dozen are re-run and, if any of them fails again, the others are kept as they are
+    budget = 12
     for rec in dis:
         if is_known(rec):
             keep_d.append(rec)   # expected to fail: the recorded finding
             continue
+        if budget <= 0 and keep_d:
+            keep_d.append(rec)
+            continue
+        budget -= 1
         head = rec["case"].split("|")[0].strip()
         f, _, args = head.partition(" ")
         still = True
@@ -310,7 +317,12 @@ def recheck_wire(root, binp, module, dis, orfs, rundir, is_known=lambda rec: Fal
             break
         if still:
             keep_d.append(rec)
+    obudget = 12
     for o in orfs:
+        if obudget <= 0 and keep_o:
+            keep_o.append(o)
+            continue
+        obudget -= 1
         still = True
         for attempt in range(2):
             retried += 1
